@@ -314,8 +314,12 @@ Goal Proofs.C09MultiWitness.wm_kt_text [] Proofs.C14Witness.ws_renamed Proofs.C1
     Some (lit "package p.my_crate" ++ [10%N; 10%N] ++ lit "import kotlinx.serialization.Serializable" ++ [10%N] ++
           lit "import kotlinx.serialization.SerialName" ++ [10%N; 10%N] ++ lit "import p.a.A2Renamed" ++ [10%N; 10%N] ++
           lit "@Serializable" ++ [10%N] ++ lit "data class B1 (" ++ [10%N; 9%N] ++ lit "val f: A2Renamed" ++ [10%N] ++ lit ")" ++ [10%N; 10%N])%list /\
+  Proofs.C09MultiWitness.wm_kt_text (lit "KP") Proofs.C14Witness.ws_renamed Proofs.C14Witness.MY =
+    Some (lit "package p.my_crate" ++ [10%N; 10%N] ++ lit "import kotlinx.serialization.Serializable" ++ [10%N] ++
+          lit "import kotlinx.serialization.SerialName" ++ [10%N; 10%N] ++ lit "import p.a.KPA2Renamed" ++ [10%N; 10%N] ++
+          lit "@Serializable" ++ [10%N] ++ lit "data class KPB1 (" ++ [10%N; 9%N] ++ lit "val f: KPA2Renamed" ++ [10%N] ++ lit ")" ++ [10%N; 10%N])%list /\
   match Proofs.C09MultiWitness.wm_kt_text (lit "KP") Proofs.C14Witness.ws_renamed Proofs.C14Witness.MY with
-  | Some t => contains_sub (lit "val f: KPA2Renamed") t && contains_sub (lit "import p.a.A2Renamed") t
+  | Some t => negb (contains_sub (lit "import p.a.A2Renamed") t)
   | None => false
   end = true /\
   match Proofs.C09MultiWitness.wm_kt_text (lit "KP") Proofs.C14Witness.ws_renamed (lit "a") with
